@@ -115,6 +115,9 @@ func runClock(c *runCtx) {
 			}
 		}
 	}
+	if c.prop == "C09" {
+		runC09bulk(c)
+	}
 	c.rep.Evaluations++
 	c.rep.Nontriv("clock")
 	if len(c.rep.Samples) < 2 {
